@@ -37,7 +37,9 @@ RULE = ("exact streams: seeded small-integer/dyadic transformations (float32/flo
         "combinations through the unmodified functions; multi-chain protein/RNA complexes (2-4 chains, missing "
         "terminal/internal residues in any chain of either structure, rigid copies, single models and stacks) through "
         "the unmodified superimpose_homologs with a synthetic CCD, and their _find_matching_anchors result against "
-        "the Lean offset model; judged by the property oracle (orthonormal, det +1, "
+        "the Lean offset model; refused calls (snapshots of all arguments), rigid motions made by every public function of "
+        "transform.py, every array/scalar argument in several spellings (F-order, strided, read-only, byte-swapped, float64, "
+        "NumPy scalars), all optional parameters of superimpose_homologs; judged by the property oracle (orthonormal, det +1, "
         "matrix form, reproduction, model-wise action, RMSD not above an independent float64 quaternion "
         "optimum nor above 200+ perturbed placements, anchors). non-trivial = >= 2 atoms with a non-identity "
         "motion or an error branch; distinct = different ops / different float input")
